@@ -198,6 +198,7 @@ func windowScenario(policy vs.Policy, f int) *explore.Scenario {
 		offset := []time.Duration{0, 30 * time.Millisecond, 49 * time.Millisecond, 51 * time.Millisecond}[vs.Choose(4, 0, "first arrival offset")]
 		delta := deltas[vs.Choose(len(deltas), 0, "gap")]
 		time.Sleep(offset)
+		firstStart := vs.VirtualNow()
 		h(message.NewMessage("a", []byte("same")))
 		other := 0
 		hOther := d.Middleware(func(m *message.Message) ([]*message.Message, error) { other++; return nil, nil })
@@ -211,10 +212,14 @@ func windowScenario(policy vs.Policy, f int) *explore.Scenario {
 		}
 		gap := vs.VirtualNow() - t0
 		h(message.NewMessage("b", []byte("same")))
+		// conservative time stamps: the key was recorded somewhere inside the first call and is looked up somewhere
+		// inside the second one (with the nondeterministic clock time may pass inside a call): only if even the
+		// longest possible distance is shorter than the window must the repeat still be known
+		span := vs.VirtualNow() - firstStart
 		accepted := calls == 2
 		switch {
-		case gap < window && accepted:
-			vs.Fail("remembered-for-window", "repeat after %v (window %v, first arrival at +%v) was accepted", gap, window, offset)
+		case span < window && accepted:
+			vs.Fail("remembered-for-window", "repeat at most %v after the first arrival (window %v, first arrival at +%v) was accepted", span, window, offset)
 		case gap > window*3/2 && policy == vs.Quiescent && !accepted:
 			vs.Fail("accepted-after-expiry", "repeat after %v (window %v, clean-up every %v, first arrival at +%v) still dropped", gap, window, window/2, offset)
 		}
